@@ -17,7 +17,11 @@ VDEPS = os.path.join(CACHE, 'vdeps')
 TOOLCHAIN = '1.98.1-x86_64-unknown-linux-gnu'
 EXTERNS = ['base64', 'bitflags', 'chacha20', 'curve25519_dalek', 'generic_array', 'lazy_static', 'rand_core',
            'salsa20', 'serde', 'sha2', 'subtle', 'zeroize', 'libc']
-CFGS = ['feature="u64_backend"', 'feature="nightly"', 'feature="serde"', 'feature="base64"']
+# `feature="serde"` is NOT enabled in the main configuration: serde's derive on a struct wrapped in verus!{} crashes
+# Verus (internal error in the erasure pass). The serde visitors of src/bytes_serde.rs are verified in a second
+# configuration (CFGS_SERDE) that annotates only that file.
+CFGS = ['feature="u64_backend"', 'feature="nightly"', 'feature="base64"']
+CFGS_SERDE = CFGS + ['feature="serde"']
 
 REFUTATIONS = (
     'postcondition not satisfied',
@@ -130,10 +134,10 @@ def module_of(relfile):
     return '::'.join(parts)
 
 
-def run_verus(scratch, modules=None, rlimit=20, seed=None, threads=None, extra=None, timeout=3000):
+def run_verus(scratch, modules=None, rlimit=20, seed=None, threads=None, extra=None, timeout=3000, cfgs=None):
     cmd = ['verus', 'src/lib.rs', '--crate-type', 'lib', '--edition', '2021', '--crate-name', 'dryoc']
     cmd += extern_args()
-    for c in CFGS:
+    for c in (cfgs or CFGS):
         cmd += ['--cfg', c]
     cmd += ['--no-trait-conflicts', '--triggers-mode', 'silent', '--rlimit', str(rlimit), '--output-json', '--time',
             '--error-format=json', '--multiple-errors', '4', '--no-report-long-running']
